@@ -401,7 +401,13 @@ def h_model_assemble(s1: int, l1: int, s2: int, l2: int):
     ers = []
     for (s, l) in spans:
         e = ExtractResult()
-        e.start, e.length, e.text, e.type = s, l, SRC[int(s):int(s) + int(l)], 'date' if MODEL_KIND == 'datetime' else 't'
+        cut = SRC[int(s):int(s) + int(l)]
+        assume(cut.strip() != '')
+        # the sequence extractors may hand over the trimmed text of an untrimmed span (phone prefix re-spanning does): the span is what
+        # counts there; the other extractors always deliver the exact slice
+        if MODEL_KIND in ('phone', 'sequence'):
+            cut = cut.strip()
+        e.start, e.length, e.text, e.type = s, l, cut, 'date' if MODEL_KIND == 'datetime' else 't'
         e.data = 'data'
         ers.append(e)
     m = _make_model(ers)
@@ -412,7 +418,8 @@ def h_model_assemble(s1: int, l1: int, s2: int, l2: int):
     assert len(res) == 2
     for r, (s, l) in zip(res, spans):
         assert r.start == s and r.end == s + l - 1 and 0 <= r.start <= r.end < N
-        assert r.text == SRC[int(s):int(s) + int(l)]
+        want = SRC[int(s):int(s) + int(l)]
+        assert r.text == (want.strip() if MODEL_KIND in ('phone', 'sequence') else want)
 
 
 # ---- AbstractNumberWithUnitModel.parse: the b_add filter ---------------------------------------------------------------
@@ -447,6 +454,70 @@ def h_b_add(s1: int, l1: int, s2: int, l2: int, s3: int, l3: int):
     assert disjoint(out)                                   # repeated results are reported once
     for (s, l) in spans:
         assert any(o[0] == s and o[1] == l for o in out)   # and nothing else is dropped
+
+
+def _unit_model_two(a_spans, b_spans):
+    from recognizers_number_with_unit.number_with_unit.models import CurrencyModel, ExtractorParserModel
+    def ers(spans):
+        out = []
+        for (s, l) in spans:
+            e = ExtractResult()
+            e.start, e.length, e.text, e.type = s, l, 'x', 't'
+            out.append(e)
+        return out
+    m = CurrencyModel([ExtractorParserModel(_StubExtractor(ers(a_spans)), _StubParser()), ExtractorParserModel(_StubExtractor(ers(b_spans)), _StubParser())])
+    return [(r.start, r.end - r.start + 1) for r in m.parse(SRC)]
+
+
+def h_b_add_two(a1: int, k1: int, a2: int, k2: int, b1: int, m1: int, b2: int, m2: int):
+    """a model with two extractor/parser pairs (zh-cn: the Chinese extractor and the English fallback): each extractor delivers
+    pairwise disjoint results; a result of the second extractor either is disjoint from, or covers, each result of the first
+    (the remaining case -- inside or across an earlier result -- is the region of known finding F36).  The output is pairwise
+    disjoint, keeps every result of the first extractor and every second-extractor result that touches nothing."""
+    A, B = [(a1, k1), (a2, k2)], [(b1, m1), (b2, m2)]
+    assume(all(0 <= s and 1 <= l and s + l <= N for (s, l) in A + B))
+    assume(a1 + k1 <= a2 and b1 + m1 <= b2)
+    for (bs, bl) in B:
+        for (as_, al) in A:
+            apart = bs + bl <= as_ or as_ + al <= bs
+            covers = bs <= as_ and as_ + al <= bs + bl
+            assume(apart or covers)
+    out = _unit_model_two(A, B)
+    assert disjoint(out)
+    for (s, l) in A:
+        assert any(o[0] == s and o[1] == l for o in out)
+    for (bs, bl) in B:
+        touches = False
+        for (as_, al) in A:
+            if not (bs + bl <= as_ or as_ + al <= bs):
+                touches = True
+        if not touches:
+            assert any(o[0] == bs and o[1] == bl for o in out)
+
+
+def h_b_add_two_kf(a1: int, k1: int, b1: int, m1: int):
+    """region F36: a second-extractor result inside or across a first-extractor result"""
+    assume(0 <= a1 and 1 <= k1 and a1 + k1 <= N and 0 <= b1 and 1 <= m1 and b1 + m1 <= N)
+    apart = b1 + m1 <= a1 or a1 + k1 <= b1
+    covers = b1 <= a1 and a1 + k1 <= b1 + m1
+    assume(not apart and not covers)
+    out = _unit_model_two([(a1, k1)], [(b1, m1)])
+    assert disjoint(out)
+
+
+def api_witness_f36(slice_, timeout):
+    from recognizers_number_with_unit import recognize_currency
+    rs = recognize_currency('$20美元', 'zh-cn')
+    sp = sorted((r.start, r.end, r.text) for r in rs)
+    for x, y in zip(sp, sp[1:]):
+        if x[1] >= y[0]:
+            return {'state': 'counterexample', 'cex': {'q': '$20美元'}, 'detail': 'overlapping entities %r' % (sp,), 'queries': 1}
+    return {'state': 'discharged', 'detail': 'witness no longer overlaps', 'queries': 1}
+
+
+def api_witness_f36__replay(slice_, cex):
+    r = api_witness_f36(slice_, 0)
+    return {'reproduced': r['state'] == 'counterexample', 'detail': r['detail']}
 
 
 # ---- NumberWithUnitExtractor.extract: prefix / suffix offset arithmetic, relative number position ---------------------------------
